@@ -142,7 +142,7 @@ def descTextOK (indentLen : Nat) (d : String) : Bool :=
   let first := lines.headD []
   let oneLine := lines.length == 1 && first.length < 70 && !(first.getLast? == some 34)
   let lead := first.length > (SdlPrintT.lstrip first).length
-  !t.isEmpty && t.all (fun c => (32 ≤ c || c == 9 || c == 10)) &&
+  !d.isEmpty && !t.isEmpty && t.all (fun c => (32 ≤ c || c == 9 || c == 10)) &&
   lines.all (fun l => l.length ≤ 120 - indentLen) &&
   !lineBlank first && !lineBlank (lines.getLastD []) &&
   (if oneLine then !(first.getLast? == some 92)
